@@ -347,7 +347,7 @@ def child_digests(seeds):
 def extra_phase(tier, base_seed, prop="C01"):
     from .. import bigworld
     if prop == "C04":
-        return {}
+        return bigworld.expansion_phase(tier, base_seed)
     big = bigworld.prefix_phase(prop, tier, base_seed)
     if prop != "C01":
         return big
